@@ -45,7 +45,8 @@ REPLAYS = {
     "herestring-nonfirst": lambda: [S([E(0), E(1, True, frm="h")])],
     "herestring-reader-gone": lambda: [S([F.mk_stage("N", frm="h")]), S([E(0, frm="h", redirs=["1t31"])], unop=[31])],
     "dup-fd-left-open": lambda: [S([E(0, redirs=["2&1"])]), S([E(0, redirs=["1&2"])])],
-    "capture-with-redirect": lambda: [S([E(0, redirs=["1t5"])], cap=True)],
+    "capture-with-redirect": lambda: [S([E(0, redirs=["1t5"])], cap=True), S([E(0, redirs=["2&1"])], cap=True),
+                                      S([E(0, redirs=["1t6", "2&1"])], cap=True), S([E(0, redirs=["1&2"])], cap=True)],
     "builtin-capture-pipes": lambda: [S([F.mk_stage("B", prints="o", builtin="alias")], cap=True)],
 }
 
